@@ -312,6 +312,13 @@ void execute_queue(const Plan &plan, Verdict &v, Mode mode) {
         // firmware that refills the SCPI queue from its own backlog when told (error callback with 0) that the queue ran empty
         long refill_left = clampl(plan.k("errcb_refill", 0), 0, 3);
         bool cls_cleared_early = false;
+        // firmware that services every error on the spot: its error callback moves the whole queue into a log of its own
+        // (1 = SCPI_ErrorClear, 2 = SCPI_ErrorPop until empty). The entry being pushed is already in the queue then. Not combined
+        // with the other re-entrant behaviours, no allocation faults, malloc and no-info builds only (in the static-heap build a
+        // drain from inside a push that itself runs inside SYST:ERR? would release texts out of order, see DESIGN 6b).
+        int drain = (int) clampl(plan.k("errcb_drain", 0), 0, 2);
+        if (SIM_HEAP || refill_left > 0) drain = 0;
+        bool in_drain = false;
         bool early_pop_valid = false;
         Entry early_pop;
         int early_before = 0;
@@ -342,7 +349,31 @@ void execute_queue(const Plan &plan, Verdict &v, Mode mode) {
                 COUNT("fault_push_inside_error_callback_on_empty");
                 return;
             }
-            if (fw_push_active) return;
+            if (fw_push_active) {
+                // (for firmware pushes the reference FIFO has been updated before the call when a drain is configured)
+                if (drain && !in_drain && !v.violated) {
+                    in_drain = true;
+                    COUNT("fault_error_callback_drains_the_queue");
+                    if (drain == 1) {
+                        run.q.clear();
+                        SCPI_ErrorClear(ww.ctx);
+                    } else {
+                        int guard = 0;
+                        while (SCPI_ErrorCount(ww.ctx) > 0 && guard++ < 40000) {
+                            scpi_error_t e;
+                            SCPI_ErrorPop(ww.ctx, &e);
+                            Entry m = run.model_pop();
+                            if (e.error_code != m.code && !v.violated)
+                                v.fail("fifo-order", fmt("via=drain have=%d want=%d", e.error_code, m.code), fmt("drain inside the error callback popped %d, reference FIFO says %d", e.error_code, m.code));
+#if SIM_HAS_INFO
+                            ww.free_info(e.device_dependent_info);
+#endif
+                        }
+                    }
+                    in_drain = false;
+                }
+                return;
+            }
             if (code == -350 && run.expect_echo) {
                 run.expect_echo = false;
                 return;
@@ -368,6 +399,15 @@ void execute_queue(const Plan &plan, Verdict &v, Mode mode) {
             g_alloc.last_failed = false;
             if (has_text && failed) COUNT("fault_alloc_failed_parser_push");
             run.model_push(code, has_text, text, failed, contains);
+            if (drain && !in_drain && !v.violated) {
+                // the same servicing for errors the parser raised
+                in_drain = true;
+                COUNT("fault_error_callback_drains_the_queue");
+                run.q.clear();
+                run.expect_echo = false;
+                SCPI_ErrorClear(ww.ctx);
+                in_drain = false;
+            }
         };
         w.observer = [&](World &ww, const char *where) {
             if (v.violated) return;
@@ -521,13 +561,19 @@ void execute_queue(const Plan &plan, Verdict &v, Mode mode) {
                     COUNT("fault_alloc_failed_fw_push");
                     if (was_full) COUNT("probe_alloc_failed_at_capacity");
                 }
+                if (drain) {
+                    // the callback (which sees the entry already queued) empties the queue: reference first, no allocation fault
+                    g_alloc.fail_countdown = -1;
+                    run.model_push(code, op.has_s, stored, false);
+                    run.expect_echo = false;
+                }
                 fw_push_active = true;
                 w.fw_push(code, op.has_s ? text.c_str() : nullptr, lenarg);
                 fw_push_active = false;
                 bool failed = g_alloc.last_failed;
                 g_alloc.last_failed = false;
                 g_alloc.fail_countdown = -1;
-                run.model_push(code, op.has_s, stored, failed && allocfail);
+                if (!drain) run.model_push(code, op.has_s, stored, failed && allocfail);
                 run.expect_echo = false;
                 run.check_count("after push");
                 COUNT("fw_push");
@@ -594,6 +640,8 @@ void execute_queue(const Plan &plan, Verdict &v, Mode mode) {
             } else if (op.kind == "count") {
                 w.fw_count();
                 run.check_count("count");
+            } else if (drain && (op.kind == "wrpush" || op.kind == "wrclear" || op.kind == "wrrelay" || op.kind == "allocfail" || op.kind == "bulk_push" || op.kind == "churn")) {
+                continue;   // not combined
             } else if (op.kind == "wrpush") {
                 armed.on = true;
                 armed.countdown = clampl(op.arg(0), 0, 12);
@@ -764,6 +812,7 @@ void generate_queue(Rng &r, const GenOpts &g, Plan &p, Mode mode) {
     }
     if (r.chance(1, 6)) p.knob["wr_mode"] = r.range(1, 3);
     if (r.chance(1, 8)) p.knob["errcb_refill"] = r.range(1, 3);
+    else if (!heap && r.chance(1, 10)) p.knob["errcb_drain"] = r.range(1, 2);
     long n;
     if (r.chance(1, 40))
         n = r.range(100, thorough ? 10000 : 1500);
@@ -778,6 +827,31 @@ void generate_queue(Rng &r, const GenOpts &g, Plan &p, Mode mode) {
     bool quotes = mode == M_C18 || r.chance(1, 3);
     for (long i = 0; i < n; i++) {
         int kind = (int) r.below(mode == M_C18 ? 8 : 12);
+        if (mode == M_C18 && heap && p.knob["heap"] == 600 && r.chance(1, 12)) {
+            // the place where the heap wraps and the place where the response reaches its 255 characters made to coincide (give or
+            // take two), with a quote on the last character before the wrap (or next to it)
+            int code = gen_code(r);
+            long dl = (long) strlen(describe(code));
+            long q_inside = r.range(0, 2);
+            long l1 = 254 - dl - q_inside + r.range(-2, 2);   // raw length of the piece in front of the wrap
+            if (l1 >= 4 && l1 < 590) {
+                long wr = 600 - l1;                           // where that text has to start
+                long fill = wr - 3;                           // filler text + NUL, then "k" + NUL
+                if (fill >= 1 && fill <= 590) {
+                    std::string tf((size_t) fill, 'f'), t((size_t) l1, 'p');
+                    for (long k = 0; k < q_inside; k++) t[(size_t) r.below((uint64_t) l1 - 1)] = '"';
+                    t[(size_t) l1 - 1] = r.chance(3, 4) ? '"' : 'z';
+                    std::string tail = std::string(1, r.chance(1, 4) ? '"' : 'T') + "ail of the text";
+                    p.ops.push_back(Op("clear"));
+                    p.ops.push_back(Op("push", {-100, fill, 0}, tf));   // explicit length: longer than the automatic limit of 255
+                    p.ops.push_back(Op("push", {-101, 0, 0}, "k"));
+                    p.ops.push_back(Op("pop"));
+                    p.ops.push_back(Op("push", {code, 0, 0}, t + tail));
+                    p.ops.push_back(Op("msg", {}, "SYST:ERR?;:SYST:ERR?\n"));
+                    continue;
+                }
+            }
+        }
         if (mode == M_C18) {
             // pushes with long/quoted texts, queries, some pops to move the heap cursor
             if (kind <= 3) {
